@@ -18,7 +18,37 @@ STEP = 40
 
 
 def units(tier):
-    return E.ranges(SETS[tier], STEP)
+    return E.ranges(SETS[tier], STEP) + [("bytes-literals", 0, 1)]
+
+
+def run_bytes_literals(res):
+    """Literal types with bytes members (excluded from the term sets because bytes never reach the JSON checks)."""
+    import typing
+
+    import typelib
+
+    from ..kernel import cold
+
+    cases = [
+        (typing.Literal[b"ab"], [b"ab"]),
+        (typing.Literal[b"ab", "ab"], [b"ab", "ab"]),
+        (typing.Literal[b"1", "1", 1], [b"1", "1", 1]),
+        (list[typing.Literal[b"x", "y"]], [[b"x", "y"], []]),
+        (typing.Optional[typing.Literal[b"null"]], [b"null", None]),
+        (dict[str, typing.Literal[b"a", 2]], [{"k": b"a", "j": 2}]),
+    ]
+    for T_, vals in cases:
+        cold.clear_all()
+        res.programs += 1
+        for v in vals:
+            o = call(typelib.unmarshal, T_, v)
+            res.evals += 1
+            res.outcomes.add(h64("bytes-literal", repr(T_), repr(v), "ok" if o.ok else o.excname))
+            if o.ok:
+                res.nontrivial.add(h64("bytes-literal", repr(T_), repr(v)))
+            if not o.ok or not same(o.val, v):
+                res.violation(f"C13/pass/bytes-literal/{'raises:' + o.excname if not o.ok else ('class' if type(o.val) is not type(v) else 'value')}",
+                              f"valid value {v!r} of {T_!r} does not pass through unmarshal unchanged: {short(o.val if o.ok else o.exc, 80)}", {"set": "bytes-literals"})
 
 
 def meta(tier):
@@ -135,12 +165,18 @@ def run_term(setname, i, term, tier, res, only=None):
 
 
 def run_unit(unit, tier, res):
+    if unit[0] == "bytes-literals":
+        run_bytes_literals(res)
+        return
     s, a, b = unit
     for off, term in enumerate(E.unit_terms(unit)):
         run_term(s, a + off, term, tier, res)
 
 
 def replay(case, tier, res):
+    if case["set"] == "bytes-literals":
+        run_bytes_literals(res)
+        return
     term = E.term_set(case["set"])[case["i"]]
     only = tuple(case["only"]) if case.get("only") else None
     run_term(case["set"], case["i"], term, tier, res, only=only)
